@@ -110,6 +110,9 @@ class C05(PropertyCheck):
         "QipVerif.C05.schedule_den_C_rev",
         "QipVerif.C05.schedule_den_C_safe",
         "QipVerif.C05.safe_pair_commute",
+        "QipVerif.C05.schedule_den_C_fixed",
+        "QipVerif.C05.schedule_den_C_patch",
+        "QipVerif.C05.declared_pairs_are_safe",
         "QipVerif.C05.C05_counterexample_order",
         "QipVerif.C05.C05_counterexample_den",
         "QipVerif.C05.comm_rule_table",
@@ -263,6 +266,13 @@ class C05(PropertyCheck):
         if missing or extra:
             res.notes.append(f"gate library differs from the harness table: unknown {missing}, absent {extra}")
         self._comm_exhaustive(ctx, res)
+        tree_set = sc.self_commuting_names()
+        if tree_set is not None:
+            model_set = set(ctx.driver("drv_sched").run(["scnames"])[0][3:].split(","))
+            res.notes.append("the tree restricts the same-name rule to _SELF_COMMUTING_GATES (%d names); " % len(tree_set)
+                             + ("it is the set `patchNames` of schedule_den_C_patch" if model_set == set(tree_set) else
+                                "it differs from `patchNames` (%s): schedule_den_C_fixed applies if it does not contain FREDKIN"
+                                % sorted(model_set ^ set(tree_set))))
         settings = [(m, p) for m in ("ASAP", "ALAP") for p in (True, False)]
         # exhaustive small enumerations ------------------------------------------------------
         P_all = sc.placements(3)
